@@ -473,6 +473,18 @@ func c07E4(l *core.Ledger, r *rt) {
 	if !bad {
 		l.OK("C07-E4", key, rc.Pos(), "stream error ⇒ every pending call is answered with the stream-down error before the reader continues")
 	}
+	// C12-X8 (emitted only where the caller maps it): the reader leaves only after failing the
+	// pending calls - also when it leaves after a successful read (the node's context was
+	// cancelled between the read and the exit test): it never reads again, so it never sees
+	// the stream error, and nobody else answers the calls that wait for a reply
+	if l.Remap != nil {
+		w, reach := sx.Reach(sx.NodeOf(rc), sx.IsReturn, sx.Query{BlockNode: isCancelCall})
+		pos := rc.Pos()
+		if reach {
+			pos = sx.PosOf(w.Instr())
+		}
+		l.Check(!reach, "C12-X8", key+"/exit", pos, "every path from a read to the reader's return fails every pending call", "the reader can return after a read without failing the pending calls: when Close cancels the node context between a successful read and the exit test, the calls that still wait for a reply from this node are never answered (the sender only answers what is queued)")
+	}
 	// the error's code: what the cancelling routine sends must be Unavailable by construction.
 	// Only C07 speaks about the kind of error; the re-runs of this rule under other
 	// properties (waiters are failed at all) do not include this clause.
